@@ -372,9 +372,17 @@ def run_async(pid, tier, seed, res, only=None):
     rng = random.Random(seed * 67867967 + 23)
     n = 60 if tier == "quick" else 800
     dist = collections.Counter()
+    fixed = None
+    if only is not None:
+        # replay of one generated program
+        fixed = [(o["prog"], [None if a == [0] else Const(a[1], bool(a[2])) for a in o["args"]]) for o in only if "prog" in o]
+        n = len(fixed)
     for pi in range(n):
-        prog = kvalue.gen_prog(rng, max_stmts=7, p_sub=0.15, p_flag=0.2)
-        args = kvalue.gen_args(rng, prog)
+        if fixed is not None:
+            prog, args = fixed[pi]
+        else:
+            prog = kvalue.gen_prog(rng, max_stmts=7, p_sub=0.15, p_flag=0.2)
+            args = kvalue.gen_args(rng, prog)
         base = dict(engine="kasync", prog=prog, args=[enc(a, Keys()) for a in args])
         keys = Keys()
         kvalue._K.cur = keys
@@ -398,7 +406,7 @@ def run_async(pid, tier, seed, res, only=None):
         elif rs[0] == "ok" and xs != xa:
             res.hit("C17", "monitor", "DAG executed %s, AsyncDAG executed %s" % (xs, xa), dict(base, kind="monitor"))
         # concurrent awaits with distinct arguments in one loop
-        if rng.random() < 0.5 and prog["params"] and prog["params"][0]["default"] is None:
+        if (fixed is not None or rng.random() < 0.5) and prog["params"] and prog["params"][0]["default"] is None:
             argsets = [[Const(300 + 7 * k + j, (k + j) % 2 == 0) for j in range(len(args))] for k in range(3)]
 
             async def many():
@@ -416,6 +424,8 @@ def run_async(pid, tier, seed, res, only=None):
                 if isinstance(g, BaseException) or not same(g, exp[1]):
                     res.hit("C17", "monitor", "a concurrent await with arguments %r returned %r; the DAG of the same function returns %r" % (a, g, exp[1]), dict(base, kind="monitor", variant="gather"))
             dist["gathered"] += 1
+    if fixed:
+        return
     # the event loop keeps serving other coroutines while async-thread nodes run
     for k in range(4 if tier == "quick" else 20):
         res.evaluations += 1
